@@ -204,9 +204,43 @@ func TestC15Hook(t *testing.T) {
 
 func TestC19Hook(t *testing.T) {
 	vl := &violationLog{}
-	for _, when := range []string{"purge", "configured", "purge-deaf"} {
+	for _, when := range []string{"purge", "configured", "purge-deaf", "failing"} {
 		w := newHookWorld(t, "c19hook")
 		atomic.AddInt64(&vl.n, 1)
+		repo0 := repoGoroutines()
+		if when == "failing" {
+			// a hook that exits with an error every time (after saying something): the client goes on, and once it has been
+			// cancelled nothing of it is left - no goroutine still waiting for a hook that is long gone
+			script := filepath.Join(w.dir, "hook.sh")
+			os.WriteFile(script, []byte("#!/bin/sh\necho hook says no\necho x >> "+w.dir+"/ran\nexit 1\n"), 0o755)
+			ctx, cancel := context.WithCancel(context.Background())
+			mc := client.New(log.New(io.Discard, "", 0), w.iface, script, true)
+			done := make(chan bool)
+			go func() { defer close(done); defer func() { recover() }(); mc.Run(ctx) }()
+			for end := time.Now().Add(15 * time.Second); time.Now().Before(end) && setifaceCount(w.name) == 0; time.Sleep(20 * time.Millisecond) {
+			}
+			time.Sleep(500 * time.Millisecond)
+			b, _ := os.ReadFile(filepath.Join(w.dir, "ran"))
+			if setifaceCount(w.name) == 0 || len(b) < 4 {
+				vl.add("c19-hook", "failing hook: the client did not get to its lease within 15 s (configurations %d, hook runs %d)", setifaceCount(w.name), len(b)/2)
+			}
+			cancel()
+			select {
+			case <-done:
+			case <-time.After(8 * time.Second):
+				vl.add("c19-hook", "cancelled after hooks that failed: Run had not returned after 8 s")
+				<-done
+			}
+			left := repoGoroutines()
+			for end := time.Now().Add(3 * time.Second); time.Now().Before(end) && left > repo0; time.Sleep(50 * time.Millisecond) {
+				left = repoGoroutines()
+			}
+			if left > repo0 {
+				vl.add("c19-hook", "after %d hook runs that exited with status 1 and the client's shutdown %d goroutines still run its code (%d before it started)", len(b)/2, left, repo0)
+			}
+			w.drop()
+			continue
+		}
 		script := filepath.Join(w.dir, "hook.sh")
 		// the hook marks its start and then takes its time; at the purge it has no address in its environment.
 		// "deaf": it ignores the polite signals (SIGTERM, SIGINT, SIGHUP): only a kill ends it
@@ -246,6 +280,13 @@ func TestC19Hook(t *testing.T) {
 			if o, c = w.seg.Counters(); o != c {
 				vl.add("c19-hook", "after cancellation during the hook (%s): opens=%d closes=%d", when, o, c)
 			}
+		}
+		left := repoGoroutines()
+		for end := time.Now().Add(3 * time.Second); time.Now().Before(end) && left > repo0; time.Sleep(50 * time.Millisecond) {
+			left = repoGoroutines()
+		}
+		if left > repo0 {
+			vl.add("c19-hook", "after cancellation during the hook (%s) and Run's return %d goroutines still run the client's code (%d before it started)", when, left, repo0)
 		}
 		w.drop()
 	}
